@@ -9,7 +9,7 @@ import time
 import traceback
 
 from .builtins import EXT
-from .core import PathEnd, Unsupported, explore
+from .core import PathEnd, Unsupported, explore, explore_iter
 from .discharge import discharge_all
 from .frontend import Repo
 from .interp import Interp
@@ -79,15 +79,20 @@ def run_unit(unit: Unit):
         I = make_interp(ctx, getattr(con, "ext", None), getattr(con, "sym_attr", None))
         return con.run(I, unit.config)
 
-    try:
-        results = explore(run, func=con.qualname)
-    except Exception:
-        out["errors"].append("engine crash: " + traceback.format_exc()[-1500:])
-        out["wall"] = time.time() - t0
-        return out
     lits = None
     out["path_checks"] = []
-    for pi, pr in enumerate(results):
+    results = explore_iter(run, func=con.qualname)
+    pi = -1
+    while True:
+        try:
+            pr = next(results)
+        except StopIteration:
+            break
+        except Exception:
+            out["errors"].append("engine crash: " + traceback.format_exc()[-1500:])
+            out["wall"] = time.time() - t0
+            return out
+        pi += 1
         ctx = pr.ctx
         out["solver_calls"] += ctx.solver_calls
         if pr.error:
